@@ -23,33 +23,33 @@ GM_LOOP = {"secp256k1_surjection_genmessage": {"for (i = 0; i < n_input_tags; i+
     "decreases": "n_input_tags - i"}}}
 UNITS = [
     U("C11.parse", ["C11", "C07"], "harness/C11/parse.c", "h_sjp_parse", replace=["memcpy", CB],
-      functions=["secp256k1_surjectionproof_parse"], timeout=900, min_obl=20, unwind=34,
+      functions=["secp256k1_surjectionproof_parse"], timeout=900, min_obl=252, unwind=34,
       closed_by="no loop left in the function under contract (count_bits_set replaced by its proved contract); spec loops unwound",
       note="accept set equals the canonical-encoding spec for all byte strings of length <= 9000; memcpy replaced by the bounds+ghost-index contract"),
     U("C11.parse_content", ["C11"], "harness/C11/parse.c", "h_sjp_parse", replace=["memcpy", CB], defs=["EL_CONTENT"], tier="thorough",
-      functions=["secp256k1_surjectionproof_parse"], timeout=3600, min_obl=20, unwind=34,
+      functions=["secp256k1_surjectionproof_parse"], timeout=3600, min_obl=230, unwind=34,
       note="as C11.parse plus byte-for-byte content of bitmap and signature fields (ghost index into the 8 KiB field)"),
     U("C11.count_bits", ["C11", "C07"], "harness/C11/count_bits.c", "h_count_bits", enforce=[CB], tier="thorough", solver="cadical",
-      functions=[CB], timeout=1800, min_obl=5, unwind=34,
+      functions=[CB], timeout=1800, min_obl=40, unwind=34,
       closed_by="full unwinding: count <= 32 (callers pass ceil(n_inputs/8), n_inputs <= 256)",
       note="population-count equivalence is a hard SAT instance (140-220 s)"),
     U("C11.serialize", ["C11", "C07"], "harness/C11/serialize.c", "h_sjp_serialize", replace=["memcpy", CB],
       functions=["secp256k1_surjectionproof_serialize", "secp256k1_surjectionproof_serialized_size", "secp256k1_surjectionproof_n_total_inputs", "secp256k1_surjectionproof_n_used_inputs"],
-      timeout=900, min_obl=20, unwind=34, note="every valid proof object and every capacity <= 9000"),
+      timeout=900, min_obl=251, unwind=34, note="every valid proof object and every capacity <= 9000"),
     U("C11.roundtrip", ["C11"], "harness/C11/serialize.c", "h_sjp_roundtrip", replace=["memcpy", CB], defs=["EL_MEMCPY_EXACT32"], tier="thorough",
-      functions=["secp256k1_surjectionproof_parse", "secp256k1_surjectionproof_serialize"], timeout=5400, min_obl=20, unwind=34,
+      functions=["secp256k1_surjectionproof_parse", "secp256k1_surjectionproof_serialize"], timeout=5400, min_obl=314, unwind=34,
       note="serialize(parse(b)) == b for every accepted b of length <= 9000 (1070 s measured)"),
     U("C11.compute_pubkeys_noring", ["C11", "C07"], "harness/C11/pubkeys.c", "h_sjp_pubkeys", replace=["secp256k1_gej_add_ge_var"], assumed=["secp256k1_gej_add_ge_var"],
       loop_contracts=pk_loop(False), functions=["secp256k1_surjection_compute_public_keys", "secp256k1_generator_load", "secp256k1_ge_neg", "secp256k1_gej_set_ge"],
-      timeout=3600, min_obl=30, unwind=258, tier="thorough", closed_by="loop contract over the n tags (engine-supplied, no /repo edit)",
+      timeout=3600, min_obl=847, unwind=258, tier="thorough", closed_by="loop contract over the n tags (engine-supplied, no /repo edit)",
       note="the verifier's call: ring_input_index = NULL"),
     U("C11.compute_pubkeys", ["C11", "C07"], "harness/C11/pubkeys.c", "h_sjp_pubkeys", replace=["secp256k1_gej_add_ge_var"], assumed=["secp256k1_gej_add_ge_var"], defs=["PK_RING"],
       loop_contracts=pk_loop(True), functions=["secp256k1_surjection_compute_public_keys", "secp256k1_generator_load", "secp256k1_ge_neg", "secp256k1_gej_set_ge"],
-      timeout=3600, min_obl=30, unwind=258, tier="thorough",
+      timeout=3600, min_obl=895, unwind=258, tier="thorough",
       closed_by="loop contract over the n tags (engine-supplied, no /repo edit): ring position = prefix bit count (harness table), decreases clause; harness table loops unwound",
       note="every n <= 256, every padding-free bitmap; pubkeys is an exact-size heap object so any write beyond n_used is a bounds violation"),
     U("C11.genmessage", ["C11", "C07"], "harness/C11/genmessage.c", "h_sjp_genmessage", replace=HASH,
-      loop_contracts=GM_LOOP, functions=["secp256k1_surjection_genmessage"], timeout=1800, min_obl=30, unwind=34,
+      loop_contracts=GM_LOOP, functions=["secp256k1_surjection_genmessage"], timeout=1800, min_obl=1600, unwind=34,
       closed_by="loop contract over the n tags (engine-supplied, no /repo edit): stream length 33 i and the watched stream byte as invariant, decreases clause",
       note="every list length 0..256; stream-level hash contract (hash_log.h)"),
     U("C11.generate_gate_b8", ["C11"], "harness/C11/generate.c", "h_sjp_generate", bounded="n_inputs<=8, n_tags<=12",
@@ -57,18 +57,13 @@ UNITS = [
       assumed=["secp256k1_surjection_genrand", "secp256k1_borromean_sign"],
       unwindset=["secp256k1_surjectionproof_generate.0:14", "secp256k1_surjectionproof_generate.1:10"],
       functions=["secp256k1_surjectionproof_generate", "secp256k1_scalar_set_b32", "secp256k1_scalar_negate", "secp256k1_scalar_add", "secp256k1_scalar_get_b32", "secp256k1_memcmp_var"],
-      timeout=1800, min_obl=30, unwind=66, tier="thorough",
+      timeout=1800, min_obl=1166, unwind=66, tier="thorough",
       note="gates and wiring of proof generation with the tag scan and the scalar write-back loop unwound"),
-    U("C11.initialize_b", ["C11"], "harness/C11/initialize.c", "h_sjp_initialize", bounded="n_tags<=8, n_to_use<=2, iterations<=2, <=3 random draws",
-      replace=["secp256k1_surjectionproof_csprng_next"], assumed=["secp256k1_surjectionproof_csprng_next"],
-      functions=["secp256k1_surjectionproof_initialize", "secp256k1_surjectionproof_csprng_init", "secp256k1_memcmp_var"], timeout=3600, min_obl=30, unwind=258, tier="thorough",
-      unwindset=["secp256k1_surjectionproof_initialize.0:6", "secp256k1_surjectionproof_initialize.1:6", "secp256k1_surjectionproof_initialize.2:6", "secp256k1_memcmp_var.0:34"],
-      note="postcondition of initialize under a bounded exploration of the sampler (partial correctness; the sampler is an oracle with result < rand_max)"),
     U("C11.verify_gate_b8", ["C11", "C07"], VER, "h_sjp_verify", replace=VER_REPL, assumed=["secp256k1_borromean_verify"], defs=["EL_BOUND=8"],
-      functions=VER_FUNCS, timeout=900, min_obl=30, unwind=34, bounded="n_inputs<=8",
+      functions=VER_FUNCS, timeout=900, min_obl=679, unwind=34, bounded="n_inputs<=8",
       note="scalar loop unwound for proofs over at most 8 inputs: concrete counterexample (ring position, bytes) when a gate is broken"),
     U("C11.verify_gate", ["C11", "C07"], VER, "h_sjp_verify", replace=VER_REPL, assumed=["secp256k1_borromean_verify"],
-      loop_contracts=SJ_VERIFY_LOOP, functions=VER_FUNCS, timeout=1800, min_obl=30, unwind=34, tier="thorough",
+      loop_contracts=SJ_VERIFY_LOOP, functions=VER_FUNCS, timeout=1800, min_obl=671, unwind=34, tier="quick",
       closed_by="loop contract on the scalar loop (engine-supplied, no /repo edit): invariant with ghost ring position, decreases clause",
       note="every valid proof object (n_inputs <= 256, up to 256 used inputs) and any tag count"),
 ]
